@@ -9,3 +9,5 @@ PAIRS += [p for p in _m.PAIRS if p["name"] in ("absorb", "delete")]
 import seg_common as _sc
 PAIRS += [_sc.pairs()["slice_split"], _sc.pairs()["span_free"]] + [p for p in _sc.span_allocate_pairs() if p["name"].startswith("span_coalesce")]
 PAIRS += page_common.queue_pairs()       # a page moved between queues stays in exactly one queue
+import seg_common as _sc2
+PAIRS += [_sc2.pairs()['page_clear']]      # a freed page is wiped (no stale list pointers), its span returned once, the segment counts one page less
